@@ -42,6 +42,9 @@ pub struct Decision {
     /// Deliver a second copy this many µs after the first.
     #[serde(default, skip_serializing_if = "Option::is_none")]
     pub dup_us: Option<u64>,
+    /// Corrupt the delivered copy: (kind, parameter). See `corrupt`.
+    #[serde(default, skip_serializing_if = "Option::is_none")]
+    pub corrupt: Option<(u8, u64)>,
 }
 
 fn is_zero(v: &u64) -> bool {
@@ -50,7 +53,7 @@ fn is_zero(v: &u64) -> bool {
 
 impl Decision {
     pub fn is_default(&self) -> bool {
-        self.pending_us.is_none() && !self.err && !self.drop && self.extra_us == 0 && self.dup_us.is_none()
+        self.pending_us.is_none() && !self.err && !self.drop && self.extra_us == 0 && self.dup_us.is_none() && self.corrupt.is_none()
     }
 }
 
@@ -109,16 +112,27 @@ pub struct NetCfg {
     /// Fair-lossy: no datagram identity is randomly dropped more than this many times.
     #[serde(default)]
     pub drop_budget: Option<u8>,
+    /// Fair-lossy: at most this many random drops in the whole run.
+    #[serde(default)]
+    pub drop_total: Option<u32>,
     /// Never randomly drop/dup/stale SYN packets (the library never retries a SYN).
     #[serde(default)]
     pub protect_syn: bool,
     /// Random faults (drop/dup/stale/pending/err) stop after this virtual time.
     #[serde(default)]
     pub fault_until_ms: Option<u64>,
+    /// Random faults start only at this virtual time.
+    #[serde(default)]
+    pub fault_from_ms: Option<u64>,
     /// Random faults apply only to datagrams whose IP size does not exceed every size
     /// delivered so far in that direction (i.e. never to MTU probes). Used by C14.
     #[serde(default)]
     pub spare_probes: bool,
+    /// Corruption of delivered datagrams (C10/C11 families only): probability and enabled kinds.
+    #[serde(default)]
+    pub corrupt_p: f64,
+    #[serde(default)]
+    pub corrupt_kinds: Vec<u8>,
     /// Explicit decisions (replay / minimised / systematic placement). When present the
     /// probabilistic fields above are ignored.
     #[serde(default)]
@@ -129,7 +143,7 @@ struct Endpoint {
     idx: usize,
     real: bool,
     alive: bool,
-    inbox: BTreeMap<(T, u64, u8), (SocketAddr, Arc<Vec<u8>>, Option<Arc<Pkt>>)>,
+    inbox: BTreeMap<(T, u64, u8), (SocketAddr, Arc<Vec<u8>>, Option<Arc<Pkt>>, bool)>,
     recv_waker: Option<Waker>,
     recv_sleep: Pin<Box<Sleep>>,
     send_unblock_at: T,
@@ -149,6 +163,7 @@ pub struct NetInner {
     burst_bad: HashMap<(usize, usize), bool>,
     dynamic_cut: Option<CutDir>,
     pub in_flight: usize,
+    drops_so_far: u32,
 }
 
 pub struct SimNet {
@@ -184,6 +199,7 @@ impl SimNet {
                 burst_bad: HashMap::new(),
                 dynamic_cut: None,
                 in_flight: 0,
+                drops_so_far: 0,
             }),
             hist,
         })
@@ -251,7 +267,7 @@ impl SimNet {
             let by_idx: HashMap<SocketAddr, usize> = g.endpoints.iter().map(|(a, e)| (*a, e.idx)).collect();
             for ep in g.endpoints.values_mut() {
                 let before = ep.inbox.len();
-                ep.inbox.retain(|_, (src, _, _)| match dir {
+                ep.inbox.retain(|_, (src, _, _, _)| match dir {
                     CutDir::Both => false,
                     CutDir::From(i) => by_idx.get(src).copied() != Some(i),
                 });
@@ -312,14 +328,14 @@ impl SimNet {
             Some(m) => m.get(&att).copied().unwrap_or(Decision { att, ..Default::default() }),
             None => {
                 let cfg = &g.cfg;
-                let faults_on = cfg.fault_until_ms.is_none_or(|u| now < u * hist::MS);
+                let faults_on = cfg.fault_until_ms.is_none_or(|u| now < u * hist::MS) && cfg.fault_from_ms.is_none_or(|u| now >= u * hist::MS);
                 let is_syn = pkt.as_ref().is_some_and(|p| p.typ == crate::codec::ST_SYN);
                 let spared = (cfg.protect_syn && is_syn)
                     || (cfg.spare_probes && dst_ep.is_some_and(|(_, _, maxd)| ips > maxd && maxd > 0));
                 let f = |k: u64| unit(h3(cfg.seed, att, k));
                 let r = |k: u64| h3(cfg.seed, att, 100 + k);
                 let mut d = Decision { att, ..Default::default() };
-                if cfg.jitter_us > 0 {
+                if cfg.jitter_us > 0 && cfg.fault_from_ms.is_none_or(|u| now >= u * hist::MS) {
                     d.extra_us = r(4) % (cfg.jitter_us + 1);
                 }
                 if faults_on && src_real {
@@ -352,12 +368,30 @@ impl SimNet {
                     if cfg.dup_p > 0.0 && f(6) < cfg.dup_p {
                         d.dup_us = Some(r(6) % (2 * cfg.latency_us + cfg.jitter_us + 2000));
                     }
+                    if cfg.corrupt_p > 0.0 && !cfg.corrupt_kinds.is_empty() && f(8) < cfg.corrupt_p {
+                        let kind = cfg.corrupt_kinds[(r(8) % cfg.corrupt_kinds.len() as u64) as usize];
+                        d.corrupt = Some((kind, r(9)));
+                    }
+                    if d.drop {
+                        if let Some(total) = cfg.drop_total {
+                            if g.drops_so_far >= total {
+                                d.drop = false;
+                            }
+                        }
+                    }
                     if d.drop {
                         if let Some(b) = cfg.drop_budget {
-                            // identity: everything but the timestamps
+                            // identity: DATA/FIN = (sender, type, seq, length): every retransmission
+                            // of a segment is the same identity; control packets = everything but
+                            // the timestamps (so the single window-reopening ACK is its own identity).
                             let mut idh = crate::util::Fnv::default();
                             idh.u64(src_idx as u64);
-                            if raw.len() >= 20 {
+                            let is_seg = pkt.as_ref().is_some_and(|p| p.typ == crate::codec::ST_DATA || p.typ == crate::codec::ST_FIN);
+                            if is_seg {
+                                idh.bytes(&raw[0..4]);
+                                idh.bytes(&raw[16..18]);
+                                idh.u64(raw.len() as u64);
+                            } else if raw.len() >= 20 {
                                 idh.bytes(&raw[0..4]);
                                 idh.bytes(&raw[12..]);
                             } else {
@@ -375,6 +409,9 @@ impl SimNet {
                 d
             }
         };
+        if d.drop {
+            g.drops_so_far += 1;
+        }
         if !d.is_default() {
             g.realised.push(d);
         }
@@ -390,22 +427,22 @@ impl SimNet {
             if let Some(cx) = cx {
                 let _ = ep.send_sleep.as_mut().poll(cx);
                 hist_g.count_fault("backpressure");
-                hist_g.push(Ev::SendFail { att, src, dst, len, kind: "pending" });
+                hist_g.push(Ev::SendFail { att, src, dst, len, kind: "pending", pkt: pkt.clone() });
                 return SendOutcome::Pending;
             }
             // No context (async send_to path handles Pending by polling again): fallthrough impossible here.
             hist_g.count_fault("backpressure");
-            hist_g.push(Ev::SendFail { att, src, dst, len, kind: "pending" });
+            hist_g.push(Ev::SendFail { att, src, dst, len, kind: "pending", pkt: pkt.clone() });
             return SendOutcome::Pending;
         }
         if g.cfg.emsgsize_ip.is_some_and(|m| ips > m) && src_real {
             hist_g.count_fault("emsgsize");
-            hist_g.push(Ev::SendFail { att, src, dst, len, kind: "EMSGSIZE" });
+            hist_g.push(Ev::SendFail { att, src, dst, len, kind: "EMSGSIZE", pkt: pkt.clone() });
             return SendOutcome::Err(std::io::Error::from_raw_os_error(EMSGSIZE));
         }
         if d.err {
             hist_g.count_fault("send_error");
-            hist_g.push(Ev::SendFail { att, src, dst, len, kind: "ENETUNREACH" });
+            hist_g.push(Ev::SendFail { att, src, dst, len, kind: "ENETUNREACH", pkt: pkt.clone() });
             return SendOutcome::Err(std::io::Error::from_raw_os_error(101));
         }
 
@@ -468,11 +505,23 @@ impl SimNet {
         drop(hist_g);
 
         if let Fate::Deliver { at, dup_at } = fate {
+            let (raw, pkt) = match d.corrupt {
+                Some((kind, param)) => {
+                    let c = corrupt(&raw, kind, param);
+                    let mut hg = self.hist.lock().unwrap();
+                    hg.count_fault(corrupt_name(kind));
+                    drop(hg);
+                    let p = Pkt::parse(&c).ok().map(Arc::new);
+                    (Arc::new(c), p)
+                }
+                None => (raw, pkt),
+            };
+            let corrupted = d.corrupt.is_some();
             let ep = g.endpoints.get_mut(&dst).unwrap();
-            ep.inbox.insert((at, ord, 0), (src, raw.clone(), pkt.clone()));
+            ep.inbox.insert((at, ord, 0), (src, raw.clone(), pkt.clone(), corrupted));
             g.in_flight += 1;
             if let Some(d2) = dup_at {
-                ep.inbox.insert((d2, ord, 1), (src, raw, pkt));
+                ep.inbox.insert((d2, ord, 1), (src, raw, pkt, corrupted));
                 g.in_flight += 1;
             }
             if let Some(w) = ep.recv_waker.take() {
@@ -495,7 +544,7 @@ impl SimNet {
             let first = ep.inbox.first_key_value().map(|(k, _)| *k);
             match first {
                 Some((at, ord, copy)) if at <= now => {
-                    let (src, raw, pkt) = ep.inbox.remove(&(at, ord, copy)).unwrap();
+                    let (src, raw, pkt, corrupted) = ep.inbox.remove(&(at, ord, copy)).unwrap();
                     g.in_flight -= 1;
                     let n = raw.len().min(buf.len());
                     buf[..n].copy_from_slice(&raw[..n]);
@@ -510,6 +559,7 @@ impl SimNet {
                         pkt,
                         dup: copy == 1,
                         to_real,
+                        corrupted,
                     }));
                     return Poll::Ready((n, src));
                 }
@@ -642,4 +692,87 @@ impl RawEndpoint {
         buf.truncate(n);
         (buf, src)
     }
+}
+
+pub fn corrupt_name(kind: u8) -> &'static str {
+    match kind {
+        0 => "corrupt_flip_type_version",
+        1 => "corrupt_flip_ext_id",
+        2 => "corrupt_flip_ext_len",
+        3 => "corrupt_truncate",
+        4 => "corrupt_insert_unknown_extension",
+        5 => "corrupt_garbage",
+        6 => "corrupt_flip_header_field",
+        7 => "corrupt_flip_payload",
+        8 => "corrupt_toggle_payload",
+        _ => "corrupt_other",
+    }
+}
+
+/// Corruption of one datagram; a pure function of (bytes, kind, param).
+pub fn corrupt(raw: &[u8], kind: u8, param: u64) -> Vec<u8> {
+    let mut v = raw.to_vec();
+    let bit = 1u8 << (param % 8);
+    let p2 = param >> 8;
+    match kind {
+        0 => {
+            if !v.is_empty() {
+                v[0] ^= bit;
+            }
+        }
+        1 => {
+            if v.len() > 1 {
+                v[1] ^= bit;
+            }
+        }
+        2 => {
+            if v.len() > 21 && v[1] != 0 {
+                v[21] ^= bit;
+            } else if v.len() > 1 {
+                v[1] ^= bit;
+            }
+        }
+        3 => {
+            let n = (p2 % (v.len() as u64 + 1)) as usize;
+            v.truncate(n);
+        }
+        4 => {
+            // Insert an unknown extension at the end of the chain (semantics-preserving).
+            if let Ok(p) = Pkt::parse_structure(raw) {
+                let mut q = p.clone();
+                let id = [2u8, 4, 5, 200, 255][(p2 % 5) as usize];
+                let len = ((p2 >> 4) % 9) as usize;
+                q.exts.push((id, (0..len).map(|i| (param >> (i % 8)) as u8).collect()));
+                v = q.serialize();
+            }
+        }
+        5 => {
+            let n = (p2 % 64) as usize;
+            v = (0..n).map(|i| crate::util::h3(param, i as u64, 5) as u8).collect();
+        }
+        6 => {
+            if v.len() >= 20 {
+                let i = 2 + (p2 % 18) as usize;
+                v[i] ^= bit;
+            }
+        }
+        7 => {
+            if v.len() > 20 {
+                let i = 20 + (p2 % (v.len() as u64 - 20)) as usize;
+                v[i] ^= bit;
+            }
+        }
+        8 => {
+            if let Ok(p) = Pkt::parse_structure(raw) {
+                let hl = p.header_len();
+                if v.len() > hl {
+                    v.truncate(hl);
+                } else {
+                    v.extend((0..1 + (p2 % 8)).map(|i| i as u8));
+                }
+            }
+        }
+        _ => {}
+    }
+    v
 }
